@@ -60,6 +60,9 @@ type c28Case struct {
 	Topics  []c28Topic `json:"topics"`
 	Req     c28Req     `json:"req"`
 	Version int16      `json:"version"`
+	// Conn, when set, makes this a connection-level case (zz_verif_c28_conn_test.go) and the
+	// other fields are unused.
+	Conn *c28ConnCase `json:"conn,omitempty"`
 }
 
 // c28Store wraps the real InMemoryStore and records what Metadata returned.
@@ -656,12 +659,13 @@ func c28Templates(maxParts, mixedUpTo int) []c28Topic {
 func TestVerifC28(t *testing.T) {
 	rep := vh.New(t, "C28")
 	defer rep.Finish()
-	rep.Rule = "case = cluster snapshot (0-3 brokers with node ids 1..n; 0-3 topics, each a template: derived or explicit topic id x (topic error 3|29 without partitions | 0-3 partitions each (err 0,epoch 0)|(err 0,epoch 7)|(err 5,epoch -1), leader/replicas/ISR/offline drawn from the broker ids)) x request (all | empty list | every non-empty subset of {t0..tn-1, unknown} by name | the same by topic id (v>=10) | duplicate name | shuffled ids) x version; sent as kmsg bytes through the real handleMetadata; plus FindCoordinator v0-v3 and the not-ready metadata/coordinator replies (buildNotReadyResponse directly and through handleConnection with ready=0). distinct = version + decoded reply tuple set; non-trivial = the store's answer holds >=1 partition (leader to rewrite) or >=1 error/unknown topic entry."
+	rep.Rule = "case = cluster snapshot (0-3 brokers with node ids 1..n; 0-3 topics, each a template: derived or explicit topic id x (topic error 3|29 without partitions | 0-3 partitions each (err 0,epoch 0)|(err 0,epoch 7)|(err 5,epoch -1), leader/replicas/ISR/offline drawn from the broker ids)) x request (all | empty list | every non-empty subset of {t0..tn-1, unknown} by name | the same by topic id (v>=10) | duplicate name | shuffled ids) x version; sent as kmsg bytes through the real handleMetadata; plus FindCoordinator v0-v3 and the not-ready metadata/coordinator replies (buildNotReadyResponse directly and through handleConnection with ready=0); plus connection histories: backend mode (static|cached, reachable|refusing) x every sequence of <=3 requests over {Metadata v0/v9/v12, Metadata v12 with truncated body, ListOffsets, FindCoordinator v3} on one client connection of the real handleConnection (ready=1) in front of a fake broker that answers with its own topology x every subset of requests served with a failing metadata store x context cancelled before request k, oracle on every Metadata/FindCoordinator reply frame the client receives (non-trivial = a Metadata/FindCoordinator request is served under a fault). distinct = version + decoded reply tuple set; non-trivial = the store's answer holds >=1 partition (leader to rewrite) or >=1 error/unknown topic entry."
 	rep.Assumptions = []string{
 		"the store is the real metadata.InMemoryStore (wrapped only to record what Metadata returned); EtcdStore.Metadata shares filterTopics/cloneTopics semantics",
 		"a topic entry that carries a topic-level error carries no partitions (both stores produce error entries that way)",
 		"requests mixing by-name and by-id entries are outside the property's quantifier and are not generated",
 		"the proxy's own node id is whatever the single broker entry of the metadata reply carries (0); coordinator replies must use the same id",
+		"connection histories: the client waits for the reply (or the close) of a request before sending the next one, so a fault is switched between requests, never during one; no reply (closed connection) and an error reply naming no node are accepted for a request served under a fault; pass-through replies (ListOffsets) are not judged",
 	}
 	thorough := vh.Thorough()
 	versions := []int16{0, 1, 9, 10, 12}
@@ -685,6 +689,24 @@ func TestVerifC28(t *testing.T) {
 		if err != nil {
 			t.Fatalf("HARNESS-ERROR replay: %v", err)
 		}
+		if replay.Conn != nil {
+			w, err := c28NewConnWorker(nil)
+			if err != nil {
+				t.Fatalf("HARNESS-ERROR replay: %v", err)
+			}
+			defer w.be.close()
+			r := w.run(*replay.Conn)
+			if r.harness != nil {
+				t.Fatalf("HARNESS-ERROR replay: %v", r.harness)
+			}
+			rep.Eval(1)
+			rep.Outcome("conn|"+r.sig, r.nontr)
+			rep.Sample(map[string]any{"conn_case": replay.Conn, "client_saw": r.steps})
+			for _, v := range r.viols {
+				rep.Violation(v.key, v.detail, replay)
+			}
+			return
+		}
 		r := c28RunMetadata(replay, true)
 		rep.Eval(1)
 		rep.Outcome(fmt.Sprintf("%016x", r.sig), r.nontr)
@@ -696,6 +718,7 @@ func TestVerifC28(t *testing.T) {
 	}
 
 	c28CoordinatorAndNotReady(rep, versions)
+	c28ConnectionPart(t, rep, thorough)
 
 	deadline := vh.Deadline()
 	type job struct {
